@@ -3113,12 +3113,17 @@ def replay_file(path):
     txt = open(path).read()
     cases = []
     cur = None
+    forced = None
     for l in txt.splitlines():
         if l.startswith("#"):
             print(l)
+            mm = re.match(r"# mode (\w+)", l)
+            if mm:
+                forced = mm.group(1)
             continue
         if l.startswith("case "):
-            cur = [l[5:].strip(), []]
+            cur = [l[5:].strip(), [], forced]
+            forced = None
         elif l == "end" and cur:
             cases.append(cur)
             cur = None
@@ -3127,15 +3132,19 @@ def replay_file(path):
     wd = cm.workdir("replay")
     lib = cm.lib_id()
     try:
-        for cid, lines in cases:
+        for cid, lines, forced in cases:
             heads = set(x.split(" ")[0] for x in lines)
             mode = ("lex" if "lopts" in heads else "read" if "ropts" in heads else "parse" if "parse" in heads else "ros1msg" if "msgdef" in heads
                     else "bag" if "bag" in heads else "db3" if "db" in heads else "pywrite" if "popts" in heads
                     else "pyread" if ("op" in heads and "file" in heads) else "write")
+            if forced in ("schemas", "attmem", "writeconc", "pyread", "pywrite"):
+                mode = forced
             if mode in ("write", "bag") and not any(x.startswith("lib ") for x in lines):
                 lines = lines[:1] + ["lib " + cm.hx(lib)] + lines[1:]
             print("=== case %s (mode %s)" % (cid, mode))
             for exe, name in ((os.path.join(cm.BUILD, "impl"), "implementation"), (os.path.join(cm.BUILD, "model"), "model")):
+                if name == "model" and mode in ("attmem", "writeconc"):
+                    continue            # runtime measurements: there is no model side
                 prefix = None
                 if mode.startswith("py") and name == "implementation":
                     exe, prefix = PY_HARNESS, [sys.executable]
